@@ -143,8 +143,8 @@ def sx(x):
     if x[0] == "t":
         return "(t %s)" % x[1]
     if x[0] == "!":
-        return "(! %s)" % sx(x[1])
-    return "(%s %s %s)" % (x[0], sx(x[1]), sx(x[2]))
+        return "(not %s)" % sx(x[1])
+    return "(%s %s %s)" % ("and" if x[0] == "&" else "or", sx(x[1]), sx(x[2]))
 
 
 def has_notnot(x):
@@ -423,21 +423,24 @@ def run(ctx):
         texts = [bytes.fromhex(h).decode() for h in doc + com]
         if first is not None and ("#wa:build " + first) not in texts:
             ctx.notes.append("generator: constraint %r not among the comments the Wa parser returned" % first)
+        # the deciding comment: a constraint in the doc group wins, else the first one in the file
+        decisive = next((t for t in texts if ref_split(t) is not None), None)
         want = None
-        if first is None:
+        if decisive is None:
             want = "included"
         else:
             try:
-                tr = ref_parse(ref_split("#wa:build " + first))
+                tr = ref_parse(ref_split(decisive))
                 tagset = set(tags) | {os_, arch}
                 want = "included" if ev(tr, lambda t: t in tagset) else "skiped"
             except Reject:
                 want = "err"
+        rep["decisive"] = decisive
         bump("skip:" + want)
-        nontrivial.add(("skip", want, first is not None and len(first) > 3))
+        nontrivial.add(("skip", want, decisive is not None and len(decisive) > 13, bool(doc) and decisive in [bytes.fromhex(h).decode() for h in doc]))
         if g[0].split()[0] != want:
             ctx.violation("skip:wrong-decision", "%s: loader says %s; constraint %r under tags %s + {%s,%s} means %s" % (
-                op[:40], g[0], first, tags, os_, arch, want), rep)
+                op[:40], g[0], decisive, tags, os_, arch, want), rep)
         skipm_ops.append("skipm %s %s %s %s %s" % (os_ or "-", arch or "-", ",".join(tags) or "-", ",".join(doc) or "-", ",".join(com) or "-"))
         skip_impl.append(g[0])
 
